@@ -100,7 +100,23 @@ CTX_TEMPLATES = [
     ('BitStruct("a"/Nibble, "b"/Bytewise(Bytes(this._.n)), "c"/Nibble)', dict(n=2), dict(a=1, b=b'xy', c=2)),
     ('Bitwise(Struct("x"/BitsInteger(this._.w), "y"/Padding(8 - this._.w)))', dict(w=3), dict(x=5)),
     ('BitsSwapped(Bytes(this.n))', dict(n=2), b'ab'),
+    # branches of equal size do not make the size known: the default / the other branch may differ
+    ('Struct("tag"/Byte, "value"/Switch(this.tag, {1: Int16ub, 2: Int16sb}))', dict(), dict(tag=9, value=None)),
+    ('Struct("tag"/Byte, "value"/Switch(this.tag, {1: Int16ub, 2: Int16sb}, default=Byte))', dict(), dict(tag=9, value=5)),
+    ('Struct("tag"/Byte, "value"/Switch(this.tag, {1: Int16ub, 2: Int16sb}, default=Int16ul))', dict(), dict(tag=9, value=5)),
+    ('Switch(this.k, {1: Int16ub, 2: Int16sb})', dict(k=7), None),
+    ('Struct("f"/Flag, "v"/IfThenElse(this.f, Int16ub, Int16sb))', dict(), dict(f=True, v=1)),
+    ('Struct("f"/Flag, "v"/If(this.f, Int16ub))', dict(), dict(f=False, v=None)),
+    ('Struct("n"/Byte, "v"/Array(this.n, Pass))', dict(), dict(n=3, v=[None, None, None])),
+    ('Struct("n"/Byte, "v"/Padded(this.n, Pass))', dict(), dict(n=3, v=None)),
 ]
+# the same templates with the context read by attribute in a plain lambda: a missing key is an AttributeError there
+import re as _re
+LAMBDA_TEMPLATES = []
+for _src, _kw, _obj in CTX_TEMPLATES:
+    _l = _re.sub(r'([(,]\s*)this((?:\._params|\._)*\.[A-Za-z]\w*)(?=\s*[,)])', lambda m: '%s(lambda ctx: ctx%s)' % (m.group(1), m.group(2)), _src)
+    if _l != _src and 'this' not in _l:
+        LAMBDA_TEMPLATES.append((_l, _kw, _obj))
 
 FIXED = [
     ('Aligned(4, Int32ub)', 5), ('Aligned(4, Bytes(8))', b'12345678'), ('Aligned(2, Pass)', None), ('Aligned(4, Int24ub)', 5),
@@ -144,6 +160,10 @@ def run(tier, seed):
                 kk[k] = alt
                 cases.append(dict(src=src, op='sizeof', kw=kk))
                 checks.append((src, kk, C.NOVAL))
+    for src, kw, obj in LAMBDA_TEMPLATES:
+        keys = sorted(kw)
+        for sub in [dict(), dict(kw)] + [{k: v for k, v in kw.items() if k != drop} for drop in keys]:
+            checks.append((src, sub, obj if sub == kw else C.NOVAL))
     for src, obj in FIXED:
         cases.append(dict(src=src, op='sizeof'))
         checks.append((src, {}, obj))
@@ -167,7 +187,7 @@ def run(tier, seed):
             if obj is C.NOVAL:
                 break
     return acc.result(
-        rule='context-dependent templates x keyword contexts that supply every / no / all-but-one referenced key and other '
+        rule='context-dependent templates (as this-expressions and as attribute-reading lambdas) x keyword contexts that supply every / no / all-but-one referenced key and other '
              'key values; fixed and unsized constructs incl. Aligned at exact multiples, Prefixed(includelength), Lazy*; '
              'generated constructs of the sequential grammar x 2 values x 3 trailing strings. distinct = (construct shape, outcome)',
         fragment='sizeof_nokey is proved for every construct of the model (all 59 classes); exactness (sizeof = bytes produced = bytes consumed) '
